@@ -76,7 +76,7 @@ Definition literal_tok (t : ctok) : bool :=
 Inductive pos :=
 | PWhereEq | PWhereIn | PWhereBetween | PWhereLike | PSelectFunc | PWhereFunc | PSelectCase | PSelectVal | PSelectAlias
 | PInsert | PSet | POnDup | POnConflict | PDefault | PHaving | PJoinOn | PSubWhere | PFromSub | PTupleEq | PArrayElem
-| PArith | PCaseWhen | PCaseElse | PWithOne | PWithTwo.
+| PArith | PCaseWhen | PCaseElse | PWithOne | PWithTwo | PArithSub.
 
 Definition fa : term := TField "a" None None.
 Definition tbl (n : string) : option tref := Some {| tname := n; tschema := []; talias := None |}.
@@ -97,6 +97,7 @@ Definition plug (p : pos) (v : term) : term :=
                            (TTuple (TCons v (TCons (TValI 1 None) TNil)) None) None
   | PArrayElem => TArray (TCons v (TCons (TValS "b" None) TNil)) None            (* Array(v, "b") *)
   | PArith => TArith OAdd fa v None                                              (* Field("a") + v *)
+  | PArithSub => TArith OSub fa v None                                           (* Field("a") - v *)
   | PCaseWhen => TCase (WCons (TBasic CEq fa v None) (TValI 1 None) WNil) (OSome (TValI 2 None)) None   (* Case().when(a==v, 1).else_(2) *)
   | PCaseElse => TCase (WCons (TBasic CEq fa (TValI 1 None) None) (TValI 0 None) WNil) (OSome v) None   (* Case().when(a==1, 0).else_(v) *)
   | PWithOne | PWithTwo => TBasic CEq (TField "b" None None) v None             (* Field("b") == v in the body of a CTE *)
@@ -124,7 +125,7 @@ Definition pos_ctx (p : pos) (k : qclass) : ctx :=
   match p with
   | PWhereEq | PWhereIn | PWhereBetween | PWhereLike | PWhereFunc | PTupleEq | PSubWhere | PFromSub | PWithOne | PWithTwo =>
       with_flags c false false true
-  | PSelectFunc | PSelectCase | PSelectVal | PSelectAlias | PArrayElem | PArith | PInsert | PCaseWhen | PCaseElse =>
+  | PSelectFunc | PSelectCase | PSelectVal | PSelectAlias | PArrayElem | PArith | PArithSub | PInsert | PCaseWhen | PCaseElse =>
       with_flags c true false true
   | PSet | POnDup | PHaving => with_flags c false false false
   | POnConflict => with_flags c false true false
